@@ -35,7 +35,7 @@ def gen_cases(tier, seed):
         fam = "f" if i % 3 < 2 else "h"
         big = i % 7 == 0
         cases.append({"bseed": rng.randrange(1 << 48), "kind": "reuse_" + fam, "fam": fam,
-                      "p": {"nops": rng.choice([14, 25, 40]) if not big else 14, "pbig": 0.3 if big else 0.04, "pmid": 0.3 if big else 0.25,
+                      "p": {"levels": [1, 2, 2] if (fam == "h" and i % 2 == 0) else sl.HC_LEVELS_CHEAP, "nops": rng.choice([14, 25, 40]) if not big else 14, "pbig": 0.3 if big else 0.04, "pmid": 0.3 if big else 0.25,
                             "arena_in": 500000 if big else 300000},
                       "arena": (500000 if big else 300000) + 3 * sl.K64 + 8192, "mirror": False, "ring": i % 2 == 0})
     # attach, compress nothing (or an empty input) on a cleared table, reset, dictionary-less session with dictionary-like content:
